@@ -78,7 +78,8 @@ impl BytesSerializable for StoreConsumerOffset {
     }
 
     fn from_bytes(bytes: Bytes) -> Result<StoreConsumerOffset, IggyError> {
-        if bytes.len() < 23 {
+        // Consumer kind + three identifiers of at least 3 bytes + partition ID + offset.
+        if bytes.len() < 22 {
             return Err(IggyError::InvalidCommand);
         }
 
